@@ -1,0 +1,161 @@
+//! Read-only verification hooks (cargo feature `verif-hooks`).
+//!
+//! This module is only compiled when the feature `verif-hooks` is enabled. It never changes the
+//! behaviour of the datastructures. It offers
+//!
+//! - a dump of the raw node arena of a [`PrefixMap`] or [`PrefixSet`] (slots, links, free list and
+//!   the cached element counter), and
+//! - a process-wide callback that is invoked on every access to a node of any arena.
+
+use std::sync::atomic::Ordering;
+
+use num_traits::ToPrimitive;
+
+use crate::{Prefix, PrefixMap, PrefixSet};
+
+/// Raw content of one slot of the node arena.
+#[derive(Debug, Clone, PartialEq, Eq, Hash, PartialOrd, Ord)]
+pub struct Slot {
+    /// Index of the left child.
+    pub left: Option<usize>,
+    /// Index of the right child.
+    pub right: Option<usize>,
+    /// Whether the slot stores a value.
+    pub has_value: bool,
+    /// `prefix_len()` of the prefix stored in the slot.
+    pub len: u8,
+    /// `mask()` of the prefix stored in the slot, zero-extended to 128 bits.
+    pub mask: u128,
+    /// `repr()` of the prefix stored in the slot, zero-extended to 128 bits.
+    pub repr: u128,
+}
+
+/// Raw content of the node arena of a map.
+#[derive(Debug, Clone, PartialEq, Eq, Hash, PartialOrd, Ord)]
+pub struct ArenaDump {
+    /// Number of slots in the arena (used or not).
+    pub arena_len: usize,
+    /// Allocated capacity of the arena.
+    pub capacity: usize,
+    /// The free list, in the order in which it is stored.
+    pub free: Vec<usize>,
+    /// The cached number of elements, as reported by `len()`.
+    pub count: usize,
+    /// All slots of the arena, reachable or not.
+    pub slots: Vec<Slot>,
+}
+
+impl<P: Prefix, T> PrefixMap<P, T> {
+    /// Dump the raw node arena.
+    pub fn verif_dump(&self) -> ArenaDump {
+        let nodes = self.table.as_ref();
+        ArenaDump {
+            arena_len: nodes.len(),
+            capacity: nodes.capacity(),
+            free: self.verif_free().to_vec(),
+            count: self.len(),
+            slots: nodes
+                .iter()
+                .map(|n| Slot {
+                    left: n.left,
+                    right: n.right,
+                    has_value: n.value.is_some(),
+                    len: n.prefix.prefix_len(),
+                    mask: n.prefix.mask().to_u128().unwrap_or(u128::MAX),
+                    repr: n.prefix.repr().to_u128().unwrap_or(u128::MAX),
+                })
+                .collect(),
+        }
+    }
+}
+
+impl<P: Prefix> PrefixSet<P> {
+    /// Dump the raw node arena.
+    pub fn verif_dump(&self) -> ArenaDump {
+        self.0.verif_dump()
+    }
+}
+
+/// Signature of the access callback: `(address of the arena, slot index, mutable access)`.
+pub type AccessHook = fn(usize, usize, bool);
+
+static ACCESS_HOOK: std::sync::atomic::AtomicUsize = std::sync::atomic::AtomicUsize::new(0);
+
+/// Install (or remove) the process-wide callback that is invoked on every access to a node.
+pub fn set_access_hook(hook: Option<AccessHook>) {
+    ACCESS_HOOK.store(hook.map(|f| f as usize).unwrap_or(0), Ordering::SeqCst);
+}
+
+#[inline(always)]
+pub(crate) fn on_access<X>(table: &X, slot: usize, write: bool) {
+    let raw = ACCESS_HOOK.load(Ordering::Relaxed);
+    if raw != 0 {
+        // Safety: the only non-zero values ever stored are valid `AccessHook` function pointers.
+        let f: AccessHook = unsafe { std::mem::transmute::<usize, AccessHook>(raw) };
+        f(table as *const X as usize, slot, write);
+    }
+}
+
+/// The slot number reported to the access callback for an operation on the element counter.
+pub const COUNTER_SLOT: usize = usize::MAX;
+
+/// Drop-in replacement for [`std::sync::atomic::AtomicUsize`] (the subset that the crate uses for
+/// its element counter) that reports every operation to the access callback *before* performing
+/// it, so that a controlled scheduler can interleave threads between any two counter operations.
+#[derive(Debug, Default)]
+pub struct AtomicUsize(std::sync::atomic::AtomicUsize);
+
+impl AtomicUsize {
+    /// see [`std::sync::atomic::AtomicUsize::new`]
+    pub const fn new(v: usize) -> Self {
+        Self(std::sync::atomic::AtomicUsize::new(v))
+    }
+    /// see [`std::sync::atomic::AtomicUsize::load`]
+    pub fn load(&self, order: Ordering) -> usize {
+        on_access(self, COUNTER_SLOT, false);
+        self.0.load(order)
+    }
+    /// see [`std::sync::atomic::AtomicUsize::store`]
+    pub fn store(&self, v: usize, order: Ordering) {
+        on_access(self, COUNTER_SLOT, true);
+        self.0.store(v, order)
+    }
+    /// see [`std::sync::atomic::AtomicUsize::swap`]
+    pub fn swap(&self, v: usize, order: Ordering) -> usize {
+        on_access(self, COUNTER_SLOT, true);
+        self.0.swap(v, order)
+    }
+    /// see [`std::sync::atomic::AtomicUsize::fetch_add`]
+    pub fn fetch_add(&self, v: usize, order: Ordering) -> usize {
+        on_access(self, COUNTER_SLOT, true);
+        self.0.fetch_add(v, order)
+    }
+    /// see [`std::sync::atomic::AtomicUsize::fetch_sub`]
+    pub fn fetch_sub(&self, v: usize, order: Ordering) -> usize {
+        on_access(self, COUNTER_SLOT, true);
+        self.0.fetch_sub(v, order)
+    }
+    /// see [`std::sync::atomic::AtomicUsize::fetch_update`]
+    pub fn fetch_update<F: FnMut(usize) -> Option<usize>>(&self, set: Ordering, fetch: Ordering, f: F) -> Result<usize, usize> {
+        on_access(self, COUNTER_SLOT, true);
+        self.0.fetch_update(set, fetch, f)
+    }
+    /// see [`std::sync::atomic::AtomicUsize::compare_exchange`]
+    pub fn compare_exchange(&self, cur: usize, new: usize, s: Ordering, f: Ordering) -> Result<usize, usize> {
+        on_access(self, COUNTER_SLOT, true);
+        self.0.compare_exchange(cur, new, s, f)
+    }
+    /// see [`std::sync::atomic::AtomicUsize::compare_exchange_weak`]
+    pub fn compare_exchange_weak(&self, cur: usize, new: usize, s: Ordering, f: Ordering) -> Result<usize, usize> {
+        on_access(self, COUNTER_SLOT, true);
+        self.0.compare_exchange_weak(cur, new, s, f)
+    }
+    /// see [`std::sync::atomic::AtomicUsize::get_mut`] (exclusive access: not reported)
+    pub fn get_mut(&mut self) -> &mut usize {
+        self.0.get_mut()
+    }
+    /// see [`std::sync::atomic::AtomicUsize::into_inner`]
+    pub fn into_inner(self) -> usize {
+        self.0.into_inner()
+    }
+}
